@@ -13,6 +13,7 @@ import (
 	"strings"
 	"sync"
 	"testing"
+	"unicode"
 
 	blockstore "github.com/ipfs/boxo/blockstore"
 	"github.com/ipfs/boxo/filestore"
@@ -45,16 +46,20 @@ var tmpParent = sync.OnceValue(func() string {
 type PutSpec struct {
 	// Kind: "base" - parent directory of the root + "/" + Path, textually (not cleaned);
 	// "elsewhere" - a second, unrelated temp directory + "/" + Path;
-	// "relative" - Path as it is (a relative path).
+	// "relative" - Path as it is (a relative path);
+	// "caseparent" - like "base", but the root's parent directory (relative to the sandbox base)
+	// is spelled with swapped letter case, i.e. a different directory (same as "base" for a
+	// root that lies directly in the sandbox base).
 	Kind string `json:"kind"`
-	// Path is a template: every "{R}" is replaced by the root's name.
+	// Path is a template: every "{R}" is replaced by the root's name, every "{RC}" by the
+	// root's name with swapped letter case (a different name unless it has no cased letters).
 	Path string `json:"path"`
 }
 
 type Case struct {
 	Root      string    `json:"root"`                 // root directory, relative to the sandbox base (e.g. "root", "w/root")
 	RootSlash bool      `json:"root_slash,omitempty"` // root handed to NewFileManager with a trailing separator
-	Via       string    `json:"via"`                  // put | putmany | fm
+	Via       string    `json:"via"`                  // put | putmany | fm | fmmany
 	Puts      []PutSpec `json:"puts"`
 }
 
@@ -110,6 +115,36 @@ func mustAccept(root, p string) bool {
 
 func lexClean(p string) string { return "/" + strings.Join(lexComps(p), "/") }
 
+// swapCase swaps the case of every cased letter: a name that differs only by letter case.
+func swapCase(s string) string {
+	return strings.Map(func(r rune) rune {
+		switch {
+		case unicode.IsUpper(r):
+			return unicode.ToLower(r)
+		case unicode.IsLower(r):
+			return unicode.ToUpper(r)
+		}
+		return r
+	}, s)
+}
+
+// foldInside: outside the root, but inside it when components are compared ignoring case.
+func foldInside(root, p string) bool {
+	if !strings.HasPrefix(p, "/") || insideOrEqual(root, p) {
+		return false
+	}
+	rc, pc := lexComps(root), lexComps(p)
+	if len(pc) < len(rc) {
+		return false
+	}
+	for i := range rc {
+		if !strings.EqualFold(rc[i], pc[i]) {
+			return false
+		}
+	}
+	return true
+}
+
 func hasDotDot(p string) bool {
 	for _, c := range strings.Split(p, "/") {
 		if c == ".." {
@@ -126,6 +161,8 @@ func hasDotDot(p string) bool {
 //
 //	base/<R>/{f, a/f, a/b/f, ..a/f, .../f, ln -> ../<name>-x, lin -> a, lf -> ../<name>-x/f}
 //	base/<parent of R>/{<name>-x/f, <name>x/f, <name>.d/f, <name minus last byte>/f, f}
+//	base/<parent of R>/<name with swapped letter case>/{f, a/f}
+//	base/<parent of R with swapped letter case>/<name>/{f, a/f}        (nested roots)
 //	base/other/f, base/f
 //
 // every regular file holds a distinct text naming its location.
@@ -148,6 +185,14 @@ func buildSandbox(base, root string) {
 			continue
 		}
 		mk(filepath.Join(parent, sib, "f"))
+	}
+	if cv := swapCase(name); cv != name {
+		mk(filepath.Join(parent, cv, "f"))
+		mk(filepath.Join(parent, cv, "a/f"))
+	}
+	if cp := swapCase(parent); cp != parent {
+		mk(filepath.Join(cp, name, "f"))
+		mk(filepath.Join(cp, name, "a/f"))
 	}
 	mk(filepath.Join(parent, "f"))
 	mk("other/f")
@@ -197,6 +242,15 @@ func run(c Case) kit.Result {
 		panic(err)
 	}
 
+	// the case-variant directories must be different directories (case-sensitive file system)
+	if ri, err := os.Stat(filepath.Join(base, c.Root, "f")); err == nil {
+		for _, v := range []string{filepath.Join(filepath.Dir(c.Root), swapCase(filepath.Base(c.Root))), filepath.Join(swapCase(filepath.Dir(c.Root)), filepath.Base(c.Root))} {
+			if vi, err := os.Stat(filepath.Join(base, v, "f")); err == nil && v != filepath.Clean(c.Root) && os.SameFile(ri, vi) {
+				return kit.Result{Classes: []string{"harness:case-insensitive-fs"}}
+			}
+		}
+	}
+
 	rootClean := base + "/" + c.Root
 	rootGiven := rootClean
 	if c.RootSlash {
@@ -216,10 +270,14 @@ func run(c Case) kit.Result {
 	puts := make([]*putState, len(c.Puts))
 	for i, ps := range c.Puts {
 		st := &putState{spec: ps}
-		p := strings.ReplaceAll(ps.Path, "{R}", name)
+		p := strings.ReplaceAll(ps.Path, "{RC}", swapCase(name))
+		p = strings.ReplaceAll(p, "{R}", name)
 		rootParent := base
 		if d := filepath.Dir(c.Root); d != "." {
 			rootParent = base + "/" + d
+			if ps.Kind == "caseparent" {
+				rootParent = base + "/" + swapCase(d)
+			}
 		}
 		switch ps.Kind {
 		case "elsewhere":
@@ -262,6 +320,9 @@ func run(c Case) kit.Result {
 			add("path:inside")
 		case in:
 			add("path:root-itself")
+		case foldInside(rootClean, st.full):
+			add("path:outside-case-variant")
+			nonTrivial = true
 		case sharesPrefix && hasDotDot(st.full):
 			add("path:outside-prefix-dotdot")
 			nonTrivial = true
@@ -306,12 +367,18 @@ func run(c Case) kit.Result {
 	}
 
 	switch c.Via {
-	case "putmany":
+	case "putmany", "fmmany":
 		bl := make([]blocks.Block, len(puts))
+		nl := make([]*posinfo.FilestoreNode, len(puts))
 		for i, st := range puts {
-			bl[i] = st.node
+			bl[i], nl[i] = st.node, st.node
 		}
-		perr := fs.PutMany(ctx, bl)
+		var perr error
+		if c.Via == "fmmany" {
+			perr = fs.FileManager().PutMany(ctx, nl)
+		} else {
+			perr = fs.PutMany(ctx, bl)
+		}
 		if perr == nil {
 			for i := range puts {
 				if r := judge(i, nil); r != nil {
@@ -429,17 +496,21 @@ var pathPool = []string{
 	// outside, sharing the string prefix
 	"{R}-x/f", "{R}x/f", "{R}.d/f", "{R}-x/a/../f", "{R}/../{R}-x/f", "{R}/../f", "{R}/a/../../f", "{R}/a/b/../../../{R}-x/f",
 	"{R}/../other/f", "{R}/..", "{R}/../", "{R}/ln/../../f", "{R}x", "{R}/a/../..",
+	// outside: a sibling whose name differs from the root's only by letter case
+	"{RC}/f", "{RC}/a/f", "{RC}/a/../f", "{R}/../{RC}/f", "{RC}",
 	// outside, no string prefix
 	"f", "other/f", "other/../{R}-x/f", "", "../f",
 	// the root itself
 	"{R}", "{R}/", "{R}/.", "{R}/a/..",
 }
 
-var segPool = []string{"a", "a", "b", "f", "f", "..", "..", ".", "", "..a", "...", "ln", "lin", "lf", "{R}", "{R}-x", "other"}
-var startPool = []string{"{R}", "{R}", "{R}", "{R}", "{R}-x", "{R}x", "{R}.d", "other", ".", ".."}
+var segPool = []string{"a", "a", "b", "f", "f", "..", "..", ".", "", "..a", "...", "ln", "lin", "lf", "{R}", "{R}-x", "other", "{RC}"}
+var startPool = []string{"{R}", "{R}", "{R}", "{R}", "{R}-x", "{R}x", "{R}.d", "{RC}", "other", ".", ".."}
 
 func genPath(t *rapid.T) PutSpec {
-	switch rapid.IntRange(0, 11).Draw(t, "pathclass") {
+	switch rapid.IntRange(0, 12).Draw(t, "pathclass") {
+	case 12:
+		return PutSpec{Kind: "caseparent", Path: rapid.SampledFrom([]string{"{R}/f", "{R}/a/f", "{R}/a/../f", "{RC}/f"}).Draw(t, "casep")}
 	case 0:
 		return PutSpec{Kind: "elsewhere", Path: rapid.SampledFrom([]string{"f", "a/../f", "{R}/f"}).Draw(t, "else")}
 	case 1:
@@ -464,7 +535,7 @@ func gen(t *rapid.T) Case {
 	c := Case{
 		Root:      rapid.SampledFrom(rootPool).Draw(t, "root"),
 		RootSlash: rapid.IntRange(0, 5).Draw(t, "rootslash") == 0,
-		Via:       rapid.SampledFrom([]string{"put", "put", "fm", "putmany"}).Draw(t, "via"),
+		Via:       rapid.SampledFrom([]string{"put", "put", "fm", "putmany", "fmmany"}).Draw(t, "via"),
 	}
 	n := rapid.SampledFrom([]int{1, 1, 1, 2, 3}).Draw(t, "nputs")
 	for i := 0; i < n; i++ {
@@ -475,7 +546,7 @@ func gen(t *rapid.T) Case {
 
 var spec = kit.Spec[Case]{
 	Prop: "C41", Name: "main",
-	Rule: "sandbox with a root (8 names, optionally nested / trailing slash), siblings sharing its name as string prefix (<R>-x, <R>x, <R>.d), nested dirs, dir/file symlinks inside the root; 1-3 candidate paths (pool of 40 templates or random segment sequences with '..', '.', empty segments, symlinks; absolute elsewhere; relative) put via Filestore.Put / PutMany / FileManager.Put; containment judged by path components; non-trivial = a path outside the root that shares its string prefix, or any path with a '..' component",
+	Rule:  "sandbox with a root (8 names, optionally nested / trailing slash), siblings sharing its name as string prefix (<R>-x, <R>x, <R>.d), sibling and parent directories whose names differ only by letter case, nested dirs, dir/file symlinks inside the root; 1-3 candidate paths (pool of 40 templates or random segment sequences with '..', '.', empty segments, symlinks; absolute elsewhere; relative) put via Filestore.Put / PutMany / FileManager.Put / FileManager.PutMany; containment judged by path components; non-trivial = a path outside the root that shares its string prefix or equals an inside path up to letter case, or any path with a '..' component",
 	Quick: 2500, Thorough: 20000,
 	Gen: gen, Run: run,
 }
